@@ -1,5 +1,6 @@
 import YakModel.Proto.NodeSet
 import YakModel.Proofs.NodeSetC04
+import YakModel.Proofs.NodeSetWitness
 import YakModel.Proofs.AbsorbProofs
 /-!
 # C04 — Concurrent scans are per-key consistent and never lose a stable key
@@ -70,50 +71,14 @@ def overtakenRun : List Event :=
 theorem stable_keys_witness : ∃ s0 s1 s, Reach ⟨3⟩ s0 ∧ step? ⟨3⟩ s0 (.sStart 0 1 6) = some s1 ∧
     ReachFrom ⟨3⟩ s1 s ∧ s.sc 0 = .fin 1 6 [1, 3, 4, 5] [(0, 4, 1), (1, 4, 1)] ∧
     Present s0 1 ∧ Present s0 3 ∧ Present s0 5 ∧ ¬ Present s0 6 ∧ Present s 6 := by
-  cases h0 : exec ⟨3⟩ init prefixRun with
-  | none =>
-    have : (exec ⟨3⟩ init prefixRun).isSome = true := by decide
-    rw [h0] at this; cases this
-  | some s0 =>
-    have hv0 : (exec ⟨3⟩ init prefixRun).map (fun s => (s.chain, s.sc 0)) =
-        some ([⟨0, 0, [1, 3, 5], 3, 0, false, false⟩], .idle) := by decide
-    rw [h0] at hv0
-    simp only [Option.map_some, Option.some.injEq, Prod.mk.injEq] at hv0
-    cases h1 : step? ⟨3⟩ s0 (.sStart 0 1 6) with
-    | none => simp [step?, hv0.2] at h1
-    | some s1 =>
-      have he : exec ⟨3⟩ init (prefixRun ++ [.sStart 0 1 6] ++ overtakenRun) =
-          exec ⟨3⟩ s1 overtakenRun := by
-        have happ : ∀ (es es' : List Event) (s : State),
-            exec ⟨3⟩ s (es ++ es') = (exec ⟨3⟩ s es).bind (fun s' => exec ⟨3⟩ s' es') := by
-          intro es
-          induction es with
-          | nil => intro es' s; simp [exec]
-          | cons e es ih =>
-            intro es' s
-            simp only [List.cons_append, exec]
-            cases step? ⟨3⟩ s e with
-            | none => simp
-            | some s2 => simp [ih]
-        rw [happ, happ, h0]
-        simp [exec, h1]
-      cases h2 : exec ⟨3⟩ s1 overtakenRun with
-      | none =>
-        have : (exec ⟨3⟩ init (prefixRun ++ [.sStart 0 1 6] ++ overtakenRun)).isSome = true := by decide
-        rw [he, h2] at this; cases this
-      | some s =>
-        have hv : (exec ⟨3⟩ init (prefixRun ++ [.sStart 0 1 6] ++ overtakenRun)).map
-            (fun s => (s.sc 0, s.chain)) =
-            some (.fin 1 6 [1, 3, 4, 5] [(0, 4, 1), (1, 4, 1)],
-              [⟨0, 0, [1, 3, 4], 4, 1, false, false⟩, ⟨1, 5, [5, 6], 5, 1, false, false⟩]) := by decide
-        rw [he, h2] at hv
-        simp only [Option.map_some, Option.some.injEq, Prod.mk.injEq] at hv
-        refine ⟨s0, s1, s, reach_exec Reach.init _ h0, h1, reachFrom_exec _ h2, hv.1, ?_, ?_, ?_, ?_, ?_⟩
-        · unfold Present; rw [hv0.1]; decide
-        · unfold Present; rw [hv0.1]; decide
-        · unfold Present; rw [hv0.1]; decide
-        · unfold Present; rw [hv0.1]; decide
-        · unfold Present; rw [hv.2]; decide
+  -- every intermediate state is a literal and every step a small `rfl`
+  -- (`YakModel/Proofs/NodeSetWitness.lean`); no whole-run evaluation in the kernel
+  have h0 : exec ⟨3⟩ init prefixRun = some Witness.pre9 := Witness.pre_exec
+  have h2 : exec ⟨3⟩ Witness.ovt10 overtakenRun = some Witness.ovt28 := Witness.ovt_exec
+  refine ⟨Witness.pre9, Witness.ovt10, Witness.ovt28, reach_exec Reach.init _ h0,
+    Witness.ovt10_step, reachFrom_exec _ h2, rfl, ?_, ?_, ?_, ?_, ?_⟩ <;>
+  · unfold Present
+    decide
 
 /-! ### Removes that empty and unlink leaves (`Proto/Absorb`)
 
